@@ -106,8 +106,9 @@ def gen_plan(rng):
         draw["sigma"] = sigma
         focus = rng.choice(sorted(sigma))
         if rng.random() < 0.75:
-            draw["text"] = (corpus.WITNESS if cls == "PLSSDesc"
-                            else corpus.TRACT_WITNESS)[focus]
+            draw["text"] = corpus.witness(
+                rng, corpus.WITNESS if cls == "PLSSDesc"
+                else corpus.TRACT_WITNESS, focus)
         else:
             draw["text"] = corpus.gen_desc(rng) if cls == "PLSSDesc" \
                 else corpus.gen_block(rng)
@@ -162,7 +163,7 @@ def gen_plan(rng):
         draw["cls"] = rng.choice(("PLSSDesc", "PLSSDesc", "Tract", "TRS",
                                   "find_twprge"))
         t, r = rng.randint(1, 160), rng.randint(1, 105)
-        style = rng.choice((4, 4, 5, 6, 0))
+        style = rng.choice((4, 4, 5, 6, 0, 10, 11))
         tr = corpus.fmt_twprge(rng, (t, rng.choice("NS"), r, rng.choice("EW")), style)
         draw["text"] = f"{tr} Sec {rng.randint(1, 36)}: {corpus.gen_block(rng)}"
         draw["tw"] = _gen_tw(rng)
@@ -725,10 +726,21 @@ def _roundtrip(pytrs, text, sigma=None):
         lower = {k: v for k, v in sigma.items()}
         if all(not isinstance(v, str) or v == v.lower() or k == "layout"
                for k, v in lower.items()):
-            for ctor in ("from_dict", "from_kwargs"):
+            # ... and with the library's OWN layout constant in place of the
+            # equal literal (what a caller writing pytrs.IMPLEMENTED_LAYOUTS[i]
+            # or feeding back .current_layout passes)
+            libbed = dict(lower)
+            for const in getattr(pytrs, "IMPLEMENTED_LAYOUTS", ()):
+                if "layout" in libbed and const == libbed["layout"]:
+                    libbed["layout"] = const
+            ctors = ("from_dict", "from_kwargs") + (
+                ("from_kwargs_lib_constant",) if "layout" in libbed else ())
+            for ctor in ctors:
                 try:
                     if ctor == "from_dict":
                         cd = pytrs.Config.from_dict(dict(lower))
+                    elif ctor == "from_kwargs_lib_constant":
+                        cd = pytrs.Config.from_kwargs(**libbed)
                     else:
                         cd = pytrs.Config.from_kwargs(**lower)
                 except Exception as e:  # noqa
